@@ -24,6 +24,20 @@ edit('anyutil/any.go', [
 	}
 '''),
 ])
+# anyutil.New: the local is called `new` (a value variable that shadows the builtin after its declaration)
+edit('anyutil/any.go', [
+('''	dst := new(anypb.Any)
+	if err := MarshalFrom(dst, src, proto.MarshalOptions{}); err != nil {
+		return nil, err
+	}
+	return dst, nil
+''','''	new := new(anypb.Any)
+	if err := MarshalFrom(new, src, proto.MarshalOptions{}); err != nil {
+		return nil, err
+	}
+	return new, nil
+'''),
+])
 # runtime: nestedRecursionLimit the other way round
 edit('runtime/runtime.go', [
 ('''	if depth <= 1 {
